@@ -300,6 +300,13 @@ pub fn run(run: &Run) {
     }
 }
 
-pub fn replay(_section: &str, case: &Json) -> Option<CheckResult> {
+pub fn replay(section: &str, case: &Json) -> Option<CheckResult> {
+    if section == "type-info-after-neighbour" {
+        // re-execute the two-call history
+        let parse = |v: &Json| v.as_str().and_then(|s| u32::from_str_radix(s.trim_start_matches("0x"), 16).ok());
+        let h = case["history"].as_array()?;
+        let (first, w) = (parse(h.first()?)?, parse(h.get(1)?)?);
+        return Some(check_type_info(first).and_then(|_| check_type_info(w)).map(|_| Pass::new(true).class("history")));
+    }
     case_from::<Case>(case).map(|c| check(&c))
 }
